@@ -35,6 +35,7 @@ type Exec struct {
 	declared  map[string]bool   // symbol -> declared
 	axioms    []*Term           // facts about declared symbols (string literals, globals)
 	heapElem  map[string]types.Type
+	mapValType map[string]*types.Map
 	counter   int
 	obls      []*Obligation
 	labelSeen map[string]int
@@ -53,7 +54,7 @@ type Exec struct {
 }
 
 func NewExec(v *Verifier, fn *ssa.Function, key string, c *Contract) *Exec {
-	return &Exec{v: v, fn: fn, key: key, contract: c, ti: v.ti, declared: map[string]bool{}, heapElem: map[string]types.Type{},
+	return &Exec{v: v, fn: fn, key: key, contract: c, ti: v.ti, declared: map[string]bool{}, heapElem: map[string]types.Type{}, mapValType: map[string]*types.Map{},
 		labelSeen: map[string]int{}, assumptions: map[string]bool{}, strLits: map[string]*Term{}, globals: map[*ssa.Global]*Term{}, maxPaths: 6000}
 }
 
@@ -161,6 +162,20 @@ func (x *Exec) heapRefsBounded(h *Term, elem types.Type, alloc *Term) []*Term {
 		return nil
 	}
 	return []*Term{{Op: "forall", Sort: SBool, Bound: []*Term{r, i}, Args: []*Term{body}, Pats: []*Term{cell}}}
+}
+
+// mapRefsBounded: the same typing facts for every value stored in a map heap.
+func (x *Exec) mapRefsBounded(h *Term, mt *types.Map, alloc *Term) []*Term {
+	x.counter++
+	ks, vs := x.ti.SortOf(mt.Key()), x.ti.SortOf(mt.Elem())
+	r := Atom(fmt.Sprintf("r!w%d", x.counter), SInt)
+	k := Atom(fmt.Sprintf("k!w%d", x.counter), ks)
+	cell := App("select", vs, App("select", ArraySort(ks, vs), h, r), k)
+	body := And(x.ti.WFHeap(cell, mt.Elem(), alloc)...)
+	if body.IsTrue() {
+		return nil
+	}
+	return []*Term{{Op: "forall", Sort: SBool, Bound: []*Term{r, k}, Args: []*Term{body}, Pats: []*Term{cell}}}
 }
 
 func (x *Exec) heapByKey(st *State, key string, sort Sort) *Term {
@@ -723,6 +738,9 @@ func (x *Exec) havocLoop(st *State, fr *Frame, li *loopInfo) {
 		if et, ok := x.heapElem[k.key]; ok {
 			st.assume(x.heapRefsBounded(nh, et, st.alloc)...)
 		}
+		if mt, ok := x.mapValType[k.key]; ok {
+			st.assume(x.mapRefsBounded(nh, mt, st.alloc)...)
+		}
 	}
 }
 
@@ -746,6 +764,15 @@ func (x *Exec) loopEnv(st *State, fr *Frame, li *loopInfo) *Env {
 			}
 		}
 		unsup("idx() used in a loop that is not a slice or string range loop")
+		return nil
+	}
+	env.rlen = func() *Term {
+		if li.rangeLen != nil {
+			if tv, ok := fr.regs[li.rangeLen].(TV); ok {
+				return tv.T
+			}
+		}
+		unsup("rlen() used in a loop that is not a slice range loop")
 		return nil
 	}
 	env.visited = func() *Term {
@@ -1695,6 +1722,11 @@ func (x *Exec) typeAssert(st *State, fr *Frame, in *ssa.TypeAssert) []*State {
 func (x *Exec) mapHeaps(st *State, mt *types.Map) (dk, vk, lk string, dom, val, ln *Term) {
 	dk, vk, lk = x.ti.MapKeys(mt)
 	ks, vs := x.ti.SortOf(mt.Key()), x.ti.SortOf(mt.Elem())
+	if x.mapValType[vk] == nil {
+		x.mapValType[vk] = mt
+		x.declare(vk, ArraySort(SInt, ArraySort(ks, vs)))
+		x.axioms = append(x.axioms, x.mapRefsBounded(Atom(vk, ArraySort(SInt, ArraySort(ks, vs))), mt, Atom("alloc0", SInt))...)
+	}
 	dom = x.heapByKey(st, dk, ArraySort(SInt, ArraySort(ks, SBool)))
 	val = x.heapByKey(st, vk, ArraySort(SInt, ArraySort(ks, vs)))
 	ln = x.heapByKey(st, lk, ArraySort(SInt, SInt))
@@ -1716,6 +1748,13 @@ func (x *Exec) lookup(st *State, fr *Frame, in *ssa.Lookup) {
 		has := And(Not(Eq(xv.T, IntLit(0))), Select(Select(dom, xv.T), key))
 		v := Ite(has, Select(Select(val, xv.T), key), x.ti.ZeroTerm(mt.Elem()))
 		st.assume(Implies(has, And(x.ti.WF(Select(Select(val, xv.T), key), mt.Elem(), st.alloc)...)))
+		switch mt.Elem().Underlying().(type) {
+		case *types.Slice, *types.Struct:
+			// name compound values: they are re-read and nested in later terms
+			nv := x.fresh("mapv", v.Sort)
+			st.assume(Eq(nv, v))
+			v = nv
+		}
 		if in.CommaOk {
 			fr.regs[in] = Tuple{TV{v, mt.Elem()}, TV{has, types.Typ[types.Bool]}}
 		} else {
